@@ -156,6 +156,10 @@ pub fn drive(vectors: Option<&str>, corpus: &str, seed: u64, out: &str, thorough
     }
     for (tag, src) in variants {
       if let Some(r) = record_tree(&format!("{path}#{tag}"), l, &path, &src, &mut rng, n_obs, 6000) {
+        let mut r = r;
+        if tag != "orig" {
+          r["src"] = json!(src);
+        }
         w.put(&r);
         n_corpus += 1;
         langs.insert(util::lang_name(l));
